@@ -136,7 +136,18 @@ static void run_case(Out& out, Rng& rng, const Case& c) {
   uint64_t aext = (one && c.asz) ? (c.asz - 1) * c.asl + nn : 0;
   uint64_t bext = (two && c.bsz) ? (c.bsz - 1) * c.bsl + nn : 0;
   uint64_t res_off = PAD, a_off, b_off, end;
-  if (c.alias == 1) {
+  if (c.alias == 3) {
+    // compaction: same pointer, a's stride larger by at least nn: limb 0 is rotated in place, every other limb out of place,
+    // and no limb of a is overwritten before it is read
+    a_off = res_off;
+    b_off = res_off;
+    end = res_off + (rext > aext ? rext : aext) + PAD;
+  } else if (c.alias == 4) {
+    // exactly one coinciding limb: res = buf (stride 2nn), a = buf + nn (stride nn): limb 1 of both is the same memory
+    a_off = res_off + nn;
+    b_off = res_off;
+    end = res_off + (rext > nn + aext ? rext : nn + aext) + PAD;
+  } else if (c.alias == 1) {
     a_off = res_off;
     uint64_t e = res_off + (rext > aext ? rext : aext) + PAD;
     b_off = e;
@@ -484,6 +495,22 @@ STREAM(vz_box) {
             int nalias = (op == OP_ZERO) ? 1 : (two ? 3 : 2);
             for (int alias = 0; alias < nalias; alias++) gen_case(out, rng, nn, op, rsz, asz, bsz, alias);
           }
+        }
+  // per-limb aliasing decisions: layouts in which some limbs coincide and others do not (pointer equality is tested per limb)
+  for (uint64_t nn : nns)
+    for (int op : {OP_COPY, OP_NEG, OP_ROT, OP_AUT})
+      for (int mode = 3; mode <= 4; mode++)
+        for (int rep = 0; rep < (thorough ? 6 : 3); rep++) {
+          Case c{};
+          c.op = op; c.nn = nn; c.alias = mode;
+          c.mtype = rng.below(2); c.mask = rng.below(2); c.dclass = rng.below(6); c.k = 1;
+          c.p = pick_p(rng, nn, op == OP_AUT);
+          c.variant = rng.below(2);
+          if (mode == 3) { c.rsz = 1 + rng.below(3); c.asz = 1 + rng.below(3); c.rsl = nn + rng.below(2); c.asl = c.rsl + nn + rng.below(3); }
+          else { c.rsz = 1 + rng.below(2); c.asz = 1 + rng.below(2); c.rsl = 2 * nn; c.asl = nn; }
+          c.bsl = nn;
+          run_case(out, rng, c);
+          out.count("per_limb_alias_layouts");
         }
   // a few large dimensions
   std::vector<uint64_t> big = thorough ? std::vector<uint64_t>{256, 1024, 4096, 65536} : std::vector<uint64_t>{256, 2048};
